@@ -120,9 +120,11 @@ func loadProgram(dir string) (*Program, error) {
 		interior: map[string]bool{"List.root": true}, monitors: map[string][]monitor{}, mapValsNonNil: map[string]bool{"map[K]*call": true},
 	}
 	var errs []string
+	var perrs []packages.Error
 	for _, pk := range pkgs {
 		for _, e := range pk.Errors {
 			errs = append(errs, e.Error())
+			perrs = append(perrs, e)
 		}
 		if !strings.Contains(pk.PkgPath, "theine-go") || strings.HasSuffix(pk.PkgPath, "/run") {
 			continue
@@ -131,7 +133,7 @@ func loadProgram(dir string) (*Program, error) {
 		p.fset = pk.Fset
 	}
 	if len(errs) > 0 {
-		return nil, fmt.Errorf("type errors loading /repo with -tags=verif:\n%s", strings.Join(errs, "\n"))
+		return nil, &LoadError{Errs: perrs, msg: fmt.Sprintf("type errors loading /repo with -tags=verif:\n%s", strings.Join(errs, "\n"))}
 	}
 	// index
 	type pend struct {
@@ -329,3 +331,11 @@ func (p *Program) ghostByName(pkg *types.Package, name string) *types.Func {
 	}
 	return nil
 }
+
+// LoadError: /repo did not type-check under the build tag verif.
+type LoadError struct {
+	Errs []packages.Error
+	msg  string
+}
+
+func (e *LoadError) Error() string { return e.msg }
